@@ -590,7 +590,7 @@ Definition step_acc (a : acc) (o : json) : acc :=
             else if match jget "ttl_mismatch_d33" obs with Some _ => true | None => false end
             then (true, ["D33"])
             else if loc_disabled sy0 (jfS "loc" o) t && negb amb && is_api_op (jfS "op" o)
-            then (jfB "ok" obs, if String.eqb (jfS "op" o) "size" then ["D36"] else [])
+            then (jfB "ok" obs, [])
                  (* C10: in a disabled location every operation reports an error *)
             else if (String.eqb (jfS "op" o) "remfact" || String.eqb (jfS "op" o) "remrule") && negb amb && jfB "ok" m
             then judge_removal sy0 sy' o t
